@@ -10,7 +10,7 @@ from .gwtrace import _parse_rejected
 
 def _cfg(path, diag):
     with open(path, "w", encoding="utf-8") as fh:
-        fh.write("SPECIFICATION TSpec\nCONSTANTS MaxVersion = 1000\n MaxFaults = 1000\n SilentRace = TRUE\n"
+        fh.write("SPECIFICATION TSpec\nCONSTANTS MaxVersion = 1000\n MaxFaults = 1000\n SilentRace = TRUE\n ClaimFirst = TRUE\n"
                  f" Diag = {'TRUE' if diag else 'FALSE'}\n"
                  "CONSTRAINT Track\nPOSTCONDITION Post\nCHECK_DEADLOCK FALSE\n"
                  "INVARIANT AtomicReplace\nINVARIANT LoadWhole\nINVARIANT SaveCommitsCurrentSnapshot\n")
